@@ -243,6 +243,8 @@ class Model:
         if not self.reqs:
             return []
         data = ('\n'.join(self.reqs) + '\n').encode()
+        if os.environ.get('VERIF_DEBUG'):
+            open('/tmp/verif-last-reqs.txt', 'wb').write(data)
         p = subprocess.run(['bash', '-c', 'ulimit -s unlimited 2>/dev/null; exec "$0"', MODEL_BIN], input=data, stdout=subprocess.PIPE, stderr=subprocess.PIPE, timeout=3600)
         lines = p.stdout.decode().split('\n')
         if p.returncode != 0 or len(lines) - 1 != len(self.reqs):
@@ -380,6 +382,8 @@ class Check:
             'wall_s': round(wall, 2),
             'violations': len(bykey) + (1 if (broken and not bykey) else 0),
         }
+        if os.environ.get('VERIF_DEBUG'):
+            json.dump(self.tie_breaks[:200], open(os.path.join(rdir, f'{self.prop}-ties.json'), 'w'), indent=1, default=str)
         os.makedirs(os.path.join(VERIF, 'evidence'), exist_ok=True)
         tmp = os.path.join(VERIF, 'evidence', f'.{self.prop}.json.tmp')
         json.dump(ev, open(tmp, 'w'), indent=1, default=str)
